@@ -127,6 +127,59 @@ def sc_inbound(w, n, kind):
     w.peer_close(c)
 
 
+def sc_inbound_open(w, n, kind, behaviour=None):
+    """requests answered on a connection that stays up: the per-transaction records have to go when the transaction
+    completes, not when the connection does (measured before the connection is closed)"""
+    c = w.handshake_in("peer1.example", auth=[4])
+    old = w.behaviour_fn
+    if behaviour is not None:
+        w.behaviour_fn = lambda rec: behaviour
+    for i in range(n):
+        w.feed_msg(c, {"k": "REQ", "host": "peer1.example", "hbh": 0x1000 + i, "e2e": 0x1000 + i})
+        if kind == "threading" and i % 20 == 19:
+            w.advance(1)
+    w.advance(2)
+    w.behaviour_fn = old
+
+
+def sc_inbound_open_raise(w, n, kind):
+    """the handler fails: the node answers 5012 itself"""
+    sc_inbound_open(w, n, kind, "raise")
+
+
+def sc_inbound_open_direct(w, n, kind):
+    """the application hands its answers to Node.send_message directly (documented as supported)"""
+    c = w.handshake_in("peer1.example", auth=[4])
+    old = w.behaviour_fn
+    w.behaviour_fn = lambda rec: "hold"
+    for i in range(n):
+        w.feed_msg(c, {"k": "REQ", "host": "peer1.example", "hbh": 0x1000 + i, "e2e": 0x1000 + i})
+        if kind == "threading" and i % 20 == 19:
+            w.advance(1)
+    w.advance(2)
+    w.behaviour_fn = old
+    nc = w.node_conn_for(c)
+    held = [r for r in w.requests_seen if r["answered"] == 0]
+
+    def answer_all():
+        for r in held:
+            ans = w.apps[r["app"]].generate_answer(r["msg"], result_code=2001)
+            w._fill_answer(ans, r["msg"])
+            w.node.send_message(nc, ans)
+            r["answered"] += 1
+    w.app_call(answer_all, name="direct-answers")
+    w.advance(2)
+
+
+def sc_inbound_open_rejected(w, n, kind):
+    """requests the node rejects itself, on a connection that stays up"""
+    c = w.handshake_in("peer1.example", auth=[4])
+    variants = [{"bare": True}, {"app": 9999}, {"dest_realm": "elsewhere.example"}, {"code": 999, "bare": True}]
+    for i in range(n):
+        w.feed_msg(c, dict({"k": "REQ", "host": "peer1.example", "hbh": 0x1000 + i, "e2e": 0x1000 + i}, **variants[i % len(variants)]))
+    w.advance(2)
+
+
 def sc_inbound_experimental(w, n, kind):
     """requests answered with Experimental-Result instead of Result-Code"""
     c = w.handshake_in("peer1.example", auth=[4])
@@ -385,6 +438,10 @@ SCENARIOS = {
     "inbound-T-flag-repeats": (sc_inbound_T, {}),
     "inbound-answer-experimental-result": (sc_inbound_experimental, {}),
     "inbound-many-origin-hosts": (sc_inbound_many_origins, {}),
+    "inbound-connection-stays-up": (sc_inbound_open, {}),
+    "inbound-failing-handler-connection-stays-up": (sc_inbound_open_raise, {}),
+    "inbound-direct-send-message-connection-stays-up": (sc_inbound_open_direct, {}),
+    "inbound-rejected-connection-stays-up": (sc_inbound_open_rejected, {}),
     "rejected-requests": (sc_rejected, {}),
     "outbound-request-answer": (sc_outbound, {}),
     "outbound-request-timeout": (sc_outbound_timeout, {}),
@@ -421,6 +478,11 @@ def run_scenario(names, n, kind, seed=0):
         w.start()
         for nm in names:
             SCENARIOS[nm][0](w, n, kind)
+        m_mid = None
+        if len(names) == 1 and names[0].endswith("connection-stays-up") and w.stop_box is None:
+            # every transaction has completed, the connection is still up
+            w.advance(3)
+            m_mid = measure(w)
         # end every remaining connection, then let the workers' poll period pass
         if w.stop_box is None:
             for c in list(w.conns):
@@ -441,16 +503,28 @@ def run_scenario(names, n, kind, seed=0):
         w.advance(7)
         m = measure(w)
         died = W.monitor_threads(w)
-        return m, died
+        return m, died, m_mid
     finally:
         w.close()
 
 
 def compare(names, n, kind, rec: Recorder, seed=0):
-    (m1, d1) = run_scenario(names, n, kind, seed)
-    (m2, d2) = run_scenario(names, 10 * n, kind, seed)
+    (m1, d1, mid1) = run_scenario(names, n, kind, seed)
+    (m2, d2, mid2) = run_scenario(names, 10 * n, kind, seed)
     case = {"scenarios": list(names), "N": n, "app_kind": kind}
     label = "+".join(names)
+    # (N >= 10: tables that are created on first use - one per connected host - exist in both runs)
+    if mid1 is not None and mid2 is not None and n >= 10:
+        for path in sorted(set(mid1) | set(mid2)):
+            a = mid1.get(path, ("free", 0, None))
+            b = mid2.get(path, ("free", 0, None))
+            if b[0] == "bounded" or a[0] == "bounded":
+                continue
+            if a[1] != b[1]:
+                rec.violation(f"C19/grows-while-connected/{path}/{names[0] if len(names) == 1 else 'mixed'}", case,
+                              f"{label}: with the connection still up and every request answered, {path} has {a[1]} entries "
+                              f"after N={n} and {b[1]} after N={10 * n}")
+        rec.cls("measured-while-connected")
     for path in sorted(set(m1) | set(m2)):
         a = m1.get(path, ("free", 0, None))
         b = m2.get(path, ("free", 0, None))
